@@ -12,9 +12,10 @@ CLAIMED = {
     'C16': (
         'Lean theorems give the closed form of both schedule builders for every lifetime, escalation start, PTC duration and all rational '
         'prices/rates (start value, linear growth, cap, PTC window, inflation adjustment, construction-year zeros, ITC/grant/fee arithmetic); '
-        'the models are tied to the code on every run by calling the real builders directly (exact rationals) and by whole runs.',
-        'kernel + propext/Classical.choice/Quot.sound; float rounding, generators and the sampled correspondence are trusted (DESIGN §5)',
-        'Lean 4 proof over an exact model + differential correspondence with the real builders'),
+        'the models are tied to the code on every run by calling the real builders directly (exact rationals) and by whole runs.'
+        + ' TRANSLATOR TIE: tools/py2lean.py regenerates, on every run, Lean definitions from the current source text of BuildPricingModel and BuildPTCModel (Generated/Code.lean); theorems C16.code_BuildPricingModel_is_model / code_BuildPTCModel_is_model / code_price_shape prove for ALL arguments that the transcription equals the model the other theorems are about, so a change of that source breaks a proof obligation (then the differential search looks for the failing input).',
+        'kernel + propext/Classical.choice/Quot.sound; tools/py2lean.py (meaning given to the Python subset); float rounding, generators and the sampled correspondence are trusted (DESIGN §5)',
+        'Lean 4 proof over an exact model + source-to-Lean translation of both builders proved equal to the model + differential correspondence with the real builders'),
 }
 
 CLAIMED['C01'] = (
@@ -32,10 +33,11 @@ CLAIMED['C04'] = (
     'operating-year revenue (energy x price, + carbon) - O&M, cumulative = running sum, NPV = discounted sum under both conventions, '
     'VIR/MOIC definitions, payback lies within a turn year (repaired loop) / is 0 = N/A when there is none, with the kernel-checked '
     'counterexample for the loop as it stood on the pinned tree (defect F5, fixed in /repo); tied to the code on every run by whole runs '
-    '(reported series and metrics vs exact model; per-product revenue columns; IRR clause via the exact NPV at the reported rate, and irr_unique: a conventional cash flow has at most one rate above -100 % with zero NPV, so that rate IS the IRR; add-on project cash flow likewise, at the project\'s discount rate).',
-    'kernel + propext/Classical.choice/Quot.sound; IRR value is numerical (numpy_financial) and only its defining clause is checked; float '
+    '(reported series and metrics vs exact model; per-product revenue columns; IRR clause via the exact NPV at the reported rate, and irr_unique: a conventional cash flow has at most one rate above -100 % with zero NPV, so that rate IS the IRR; add-on project cash flow likewise, at the project\'s discount rate).'
+    + ' TRANSLATOR TIE: tools/py2lean.py regenerates, on every run, Lean definitions from the current source text of CalculateRevenue, CalculateTotalRevenue and the payback scan inside Economics.Calculate (Generated/Code.lean); theorems C04.code_CalculateRevenue_is_model / code_CalculateTotalRevenue_is_model / code_cashflow_is_assemble / code_payback_is_model prove for ALL arguments that the transcription equals the model the other theorems are about, so a change of that source breaks a proof obligation (then the differential search looks for the failing input).',
+    'kernel + propext/Classical.choice/Quot.sound; tools/py2lean.py (meaning given to the Python subset); IRR value is numerical (numpy_financial) and only its defining clause is checked; float '
     'rounding and the sampled correspondence trusted (DESIGN §5)',
-    'Lean 4 proof over an exact rational model + whole-run snapshot correspondence')
+    'Lean 4 proof over an exact rational model + source-to-Lean translation of the revenue / cash-flow / payback code proved equal to the model + whole-run snapshot correspondence')
 
 CLAIMED['C03'] = (
     'Lean theorems: total capital cost = sum of components - ITC + fees - incentives - grants (or the user-fixed total), every user-fixed '
@@ -81,10 +83,11 @@ CLAIMED['C15'] = (
     'never below hydrostatic, is flat at exactly 100 %; injection pressure = initial + rate/n * t; every pumping-power path ends in the clamp '
     '(>= 0) and the total is the sum of the two sides; laminar friction is proportional to D^-4; PARTIAL: turbulent friction monotonicity is proved '
     'up to a stated hypothesis on the Colebrook factor. Tied to the code by direct differential of the two predictors, whole runs under both '
-    'hydraulic models, and ordered diameter pairs of real runs.',
-    'kernel + propext/Classical.choice/Quot.sound; partial for the turbulent branch (log10/pow/sqrt not rational); CoolProp densities/viscosities and '
+    'hydraulic models, and ordered diameter pairs of real runs.'
+    + ' TRANSLATOR TIE: tools/py2lean.py regenerates, on every run, Lean definitions from the current source text of ReservoirPressurePredictor (incl. early return, int() and the break) and InjectionReservoirPressurePredictor (Generated/Code.lean); theorems C15.code_ReservoirPressurePredictor_is_model / code_InjectionReservoirPressurePredictor_is_model prove for ALL arguments that the transcription equals the model the other theorems are about, so a change of that source breaks a proof obligation (then the differential search looks for the failing input).',
+    'kernel + propext/Classical.choice/Quot.sound; tools/py2lean.py (meaning given to the Python subset); partial for the turbulent branch (log10/pow/sqrt not rational); CoolProp densities/viscosities and '
     'the pressure-drop formulas feeding the clamps are observed; float-floor ties skipped; sampled correspondence trusted (DESIGN §5)',
-    'Lean 4 proof over an exact rational model (partial for turbulent friction) + direct and whole-run differential')
+    'Lean 4 proof over an exact rational model (partial for turbulent friction) + source-to-Lean translation of both pressure predictors proved equal to the model + direct and whole-run differential')
 
 CLAIMED['C17'] = (
     'Lean theorems over the exact model of HIP_RA_X.Calculate for all rational inputs: volumes are the stated porosity fractions of area x '
